@@ -12,9 +12,11 @@ Case line: `(seq (POOL PROBE (ROP ...)) (OBS0 (ERR MSGS OBS) ...))`
 
 Answer: `impl` = the model's trace (identifiers renamed by first appearance, exactly like the
 harness numbers Python objects), `ok` = `specTrace` on the *python* trace, `implok` = `specTrace` on
-the model's trace, `p` = every call lies inside the hypothesis of the `_partial` theorems
-(`classify = ok`), `br` = kinds of calls, plus `(construct c)` = classification of the first call
-at which the python trace violates the Spec (`none` if it does not) and `(failstep i)`.
+the model's trace (the theorems are unconditional, so it is always `T`), `p` = on every call the model
+claims to follow the code (`classify = ok`: everything but hand-set externally derivable ids inside
+a collection, which the harness turns into a no-op), `br` = what the history exercises, plus
+`(construct c)` = classification of the first call at which the python trace violates the Spec
+(`none` if it does not) and `(failstep i)`.
 -/
 open GlueVerif GlueVerif.Sexp GlueVerif.DataStruct
 
@@ -24,10 +26,12 @@ open GlueVerif GlueVerif.Sexp GlueVerif.DataStruct
 `pix` / `world` = k-th listed pixel / world id, `pool j` = free-standing id `j`,
 `nonCoord k` = k-th component that is not a coordinate component, `main k` = k-th main component
 (both fall back to pool id 3, which is never a component), `free j` = pool id `j` provided it is not
-in use in the dataset (otherwise the call is skipped). -/
+in use in the dataset (otherwise the call is skipped), `new` = a ComponentID object made for this
+call (`ComponentID("new")`: no parent, never seen by the dataset; the same object wherever the call
+mentions it). -/
 inductive Ref where
   | comp (k : Nat) | pool (j : Nat) | pix (k : Nat) | world (k : Nat)
-  | nonCoord (k : Nat) | main (k : Nat) | free (j : Nat)
+  | nonCoord (k : Nat) | main (k : Nat) | free (j : Nat) | new
   deriving Repr, Inhabited
 
 inductive RShape where
@@ -39,7 +43,7 @@ inductive RCoords where
   deriving Repr, Inhabited, BEq
 
 inductive RReorder where
-  | same | rev | rot | swap (i j : Nat) | short | dup | foreign
+  | same | rev | rot | swap (i j : Nat) | short | dup | foreign | fresh
   deriving Repr, Inhabited
 
 inductive ROp where
@@ -69,7 +73,8 @@ def nth (xs : List Cid) (k : Nat) : Cid := if xs.isEmpty then 0 else xs[k % xs.l
 
 def nthOr (xs : List Cid) (k : Nat) (dflt : Cid) : Cid := if xs.isEmpty then dflt else xs[k % xs.length]!
 
-def resolveRef? (o : Obs) : Ref → Option Cid
+def resolveRef? (o : Obs) (fresh : Cid) : Ref → Option Cid
+  | .new => some fresh
   | .comp k => some (nth (ocids o) k)
   | .pool j => some j
   | .pix k => some (nth o.pix k)
@@ -78,7 +83,7 @@ def resolveRef? (o : Obs) : Ref → Option Cid
   | .main k => some (nthOr ((o.comps.filter (fun c => c.kind.isMain)).map (·.cid)) k 3)
   | .free j => if (ocids o).contains j || o.pix.contains j || o.world.contains j then none else some j
 
-def resolveRef (o : Obs) (r : Ref) : Cid := (resolveRef? o r).getD 3
+def resolveRef (o : Obs) (fresh : Cid) (r : Ref) : Cid := (resolveRef? o fresh r).getD 3
 
 def bumpLast : Shape → Shape
   | [] => [4]
@@ -102,15 +107,17 @@ def dedupKeys (m : List (Cid × Shape × Nat)) : List (Cid × Shape × Nat) :=
   m.foldl (fun acc e => if acc.any (·.1 == e.1) then acc else acc ++ [e]) []
 
 /-- Positional call → concrete call, against the observation before it. `tag` = index of the call
-(value tags and coordinate-object tokens are derived from it). -/
-def resolve (o : Obs) (tag : Nat) : ROp → Op
+(value tags and coordinate-object tokens are derived from it), `fresh` = the identity a ComponentID
+made for this call has (model: `next`; python trace: the number the harness gives the next object it
+has not seen). -/
+def resolve (o : Obs) (fresh : Cid) (tag : Nat) : ROp → Op
   | .addArray l sh => .addArray l (addShape o sh) (10 * tag)
   | .addArrayAt r sh =>
-    match resolveRef? o r with
+    match resolveRef? o fresh r with
     | some c => .addArrayAt c (addShape o sh) (10 * tag)
     | none => .nop
-  | .addDerived v l deps => .addDerived v l (deps.map (resolveRef o))
-  | .remove r => .remove (resolveRef o r)
+  | .addDerived v l deps => .addDerived v l (deps.map (resolveRef o fresh))
+  | .remove r => .remove (resolveRef o fresh r)
   | .reorder k =>
     let cur := ocids o
     .reorder (match k with
@@ -124,19 +131,14 @@ def resolve (o : Obs) (tag : Nat) : ROp → Op
         (List.range cur.length).map fun t => if t == a then cur[b]! else if t == b then cur[a]! else cur[t]!
       | .short => cur.dropLast
       | .dup => if cur.isEmpty then [] else cur.dropLast ++ [cur[0]!]
-      | .foreign => cur.dropLast ++ [3])
+      | .foreign => cur.dropLast ++ [3]
+      | .fresh => cur.dropLast ++ [fresh])
   | .updateId old new =>
-    let oc := resolveRef o old
-    -- not exercised here (C14 / F14: `update_id` does not update the ComponentLinks of derived
-    -- components, which the collection's link manager reads): ids that are an input of a derived
-    -- component, and ids of derived components themselves
-    if o.comps.any (fun c => c.kind.dependsOn oc) then .nop
-    else if o.comps.any (fun c => c.cid == oc && c.kind.isDerived) then .nop
-    else match resolveRef? o new with
-      | some nc => .updateId oc nc
-      | none => .nop
+    match resolveRef? o fresh new with
+    | some nc => .updateId (resolveRef o fresh old) nc
+    | none => .nop
   | .updateComponents ts =>
-    .updateComponents (dedupKeys ((List.zipIdx ts).map fun p => (resolveRef o p.1.1, resolveShape o.shape p.1.2, 10 * tag + p.2)))
+    .updateComponents (dedupKeys ((List.zipIdx ts).map fun p => (resolveRef o fresh p.1.1, resolveShape o.shape p.1.2, 10 * tag + p.2)))
   | .updateFrom l comps sh coords =>
     let shape := if comps.isEmpty then [] else resolveShape o.shape sh
     let c : Option Nat := match coords with
@@ -146,9 +148,7 @@ def resolve (o : Obs) (tag : Nat) : ROp → Op
                 else if o.coords.isSome && shape.length == o.shape.length then o.coords else some (1000 + tag)
     .updateFrom ⟨l, (List.zipIdx comps).map (fun p => (p.1, 10 * tag + p.2)), shape, c⟩
   | .setCoords c => .setCoords (match c with | .none => none | .new => some (1000 + tag) | .cur => o.coords)
-  | .rename r l =>
-    let c := resolveRef o r
-    if (ocids o).contains c then .rename c l else .nop
+  | .rename r l => .rename (resolveRef o fresh r) l
   | .setLabel l => .setLabel l
   | .attach => .attach
   | .detach => .detach
@@ -165,6 +165,7 @@ def refOf? : Sexp → Option Ref
   | .list [.atom "m", k] => k.toNat?.map .nonCoord
   | .list [.atom "n", k] => k.toNat?.map .main
   | .list [.atom "f", k] => k.toNat?.map .free
+  | .list [.atom "x", _] => some .new
   | _ => none
 
 def rshapeOf? : Sexp → Option RShape
@@ -192,6 +193,7 @@ def ropOf? : Sexp → Option ROp
   | .list [.atom "reorder", .atom "short"] => some (.reorder .short)
   | .list [.atom "reorder", .atom "dup"] => some (.reorder .dup)
   | .list [.atom "reorder", .atom "foreign"] => some (.reorder .foreign)
+  | .list [.atom "reorder", .atom "fresh"] => some (.reorder .fresh)
   | .list [.atom "reorder", .list [.atom "swap", i, j]] => do some (.reorder (.swap (← i.toNat?) (← j.toNat?)))
   | .list [.atom "updateId", a, b] => do some (.updateId (← refOf? a) (← refOf? b))
   | .list [.atom "updateComponents", .list ts] => do
@@ -345,14 +347,30 @@ structure MStep where
   op : Op
   construct : Construct
   out : Out
+  note : String     -- which of the formerly excluded constructs the call exercises ("" = none)
+
+/-- The constructs that used to lie outside the theorems (evidence: distribution of `br`). -/
+def noteOf (s : State) (op : Op) : String :=
+  if op.ids.any (· ≥ s.next) then "fresh-id"
+  else match op with
+  | .addArray _ sh _ => if sh.isEmpty || (s.shape.isEmpty && !s.comps.isEmpty) then "scalar" else ""
+  | .addArrayAt _ sh _ => if sh.isEmpty || (s.shape.isEmpty && !s.comps.isEmpty) then "scalar" else ""
+  | .updateFrom o => if (o.shape.isEmpty && !o.comps.isEmpty) || (s.shape.isEmpty && !s.comps.isEmpty) then "scalar" else ""
+  | .updateComponents m =>
+    if m.any (fun e => s.comps.any (fun x => x.cid == e.1 && !x.kind.isMain) || (s.linked.contains e.1 && !(cids s.comps).contains e.1))
+    then "update-non-main" else if s.shape.isEmpty && !s.comps.isEmpty then "scalar" else ""
+  | .rename c _ => if (cids s.comps).contains c then "" else "rename-non-component"
+  | .updateId o n =>
+    if n != o && s.comps.any (fun x => x.kind.dependsOn o || (x.cid == o && x.kind.isDerived)) then "update-id-dependents" else ""
+  | _ => ""
 
 /-- The model's run of the positional calls. -/
 def runModel (probe : List Label) : State → Nat → List ROp → List MStep
   | _, _, [] => []
   | s, i, r :: rs =>
-    let op := resolve (obs probe s) i r
+    let op := resolve (obs probe s) s.next i r
     let out := step s op
-    ⟨op, classify s op, out⟩ :: runModel probe out.state (i + 1) rs
+    ⟨op, classify s op, out, noteOf s op⟩ :: runModel probe out.state (i + 1) rs
 
 def stepToSexp (e : Option Err) (ms : List Msg) (o : Obs) : Sexp :=
   .list [errToSexp e, .list (ms.map msgToSexp), obsToSexp o]
@@ -366,17 +384,28 @@ def modelTrace (probe : List Label) (npool : Nat) (s0 : State) (steps : List MSt
     (rb, acc.2 ++ [stepToSexp st.out.err ms o])) (r1, [])
   .list (obsToSexp o0 :: out)
 
+/-- Every identifier an observation / a message mentions (the harness numbers Python objects densely
+by first appearance, so one more than the largest number seen is the number of the next new object). -/
+def obsIds (o : Obs) : List Cid :=
+  o.comps.flatMap (fun c => c.cid :: (match c.kind with | .derived deps => deps | _ => []))
+    ++ o.pix ++ o.world ++ o.linked.map (·.1) ++ o.finds.filterMap (·.2)
+
+def msgIds : Msg → List Cid
+  | .add c => [c] | .remove c => [c] | .replaced o n => [o, n] | .reorder cs => cs | .rename c => [c]
+  | .numerical (some cs) => cs | _ => []
+
 /-- Python trace → `Step`s, resolving each positional call against the python observation before it.
 Returns `none` if anything does not parse (an unknown message / exception is not in the Spec's
 vocabulary and is rejected). -/
-def pySteps (o0 : Obs) : Nat → List ROp → List Sexp → Option (List Step)
+def pySteps (o0 : Obs) (hi : Nat) : Nat → List ROp → List Sexp → Option (List Step)
   | _, [], [] => some []
   | i, r :: rs, .list [e, .list ms, ob] :: es => do
     let err ← errOf? e
     let msgs ← ms.mapM msgOf?
     let post ← obsOf? ob
-    let rest ← pySteps post (i + 1) rs es
-    some (⟨resolve o0 i r, post, msgs, err⟩ :: rest)
+    let hi' := max hi (max (idBound (msgs.flatMap msgIds)) (idBound (obsIds post)))
+    let rest ← pySteps post hi' (i + 1) rs es
+    some (⟨resolve o0 hi i r, post, msgs, err⟩ :: rest)
   | _, _, _ => none
 
 /-- Index of the first call at which the trace violates the Spec (`none` = the trace is fine;
@@ -403,7 +432,7 @@ def stepSeq (line : Sexp) : String :=
         match obsOf? py0 with
         | none => (false, "unparsed", "init")
         | some o0 =>
-          match pySteps o0 0 ops pysteps with
+          match pySteps o0 (max poolLabels.length (idBound (obsIds o0))) 0 ops pysteps with
           | none => (false, "unparsed", "parse")
           | some psteps =>
             if !specInv o0 then (false, "ok", "init") else
@@ -412,7 +441,8 @@ def stepSeq (line : Sexp) : String :=
             | some i =>
               (false, (steps[i]?.map (·.construct.name)).getD "none", toString i)
       let firstBad := (steps.find? (fun st => st.construct != .ok)).map (·.construct.name)
-      let br := firstBad.getD (if steps.any (fun st => st.out.err.isSome) then "ok-with-errors" else "ok")
+      let note := ((steps.find? (fun st => st.note != "")).map (·.note)).getD ""
+      let br := firstBad.getD (if note != "" then note else if steps.any (fun st => st.out.err.isSome) then "ok-with-errors" else "ok")
       Sexp.toString (Sexp.list [.atom "r", .list [.atom "impl", impl], .list [.atom "ok", Sexp.ofBool ok],
         .list [.atom "implok", Sexp.ofBool implok], .list [.atom "p", Sexp.ofBool p],
         .list [.atom "br", .atom br], .list [.atom "construct", .atom construct],
